@@ -173,8 +173,12 @@ def new_path(st, r):
         f_, fo_, t_, to_ = l_.pos[:4]
         walk = [(f_, fo_), (t_, to_)] if gen.chance(r, 0.5) else [(t_, INV[to_]), (f_, INV[fo_])]
         n = 2
+    und_ = st.undefined()
     for _ in range(n - len(walk)):
-        if walk and gen.chance(r, 0.25):
+        again = [w for w in walk if w[0] in und_]
+        if again and gen.chance(r, 0.45):
+            walk.append((gen.choice(r, again)[0], gen.choice(r, "+-")))  # a segment that is not defined yet, visited again
+        elif walk and gen.chance(r, 0.25):
             walk.append((gen.choice(r, walk)[0], gen.choice(r, "+-")))  # a segment visited again
         else:
             walk.append((pick_segment(st, r, 0.1), gen.choice(r, "+-")))
@@ -470,8 +474,15 @@ def gen_history(r, version, opts=None):
             model_add(st, line)
             ops.append(["add", line, gen.chance(r, o["instance"])])
     nsteps = r.randint(*o["steps"])
-    for _ in range(nsteps):
+    # (histories that are closed at the end: in two of five a few more steps follow an intermediate closing, so that
+    #  lines which were defined late - they replaced placeholders - are renamed or removed afterwards as well)
+    extra = r.randint(1, 3) if o["close"] and gen.chance(r, 0.4) else 0
+    for step_i in range(nsteps + extra):
         x = r.random()
+        if step_i == nsteps:
+            close_history(st, r, ops)
+        if step_i >= nsteps:
+            x = (o["p_rm"] + r.random() * o["p_rename"]) if gen.chance(r, 0.7) else r.random() * o["p_rm"]
         rem = removable(st)
         if rem and gen.fair(r, o["p_readd"]):
             # the same line object leaves the Gfa and comes back
@@ -638,6 +649,14 @@ def gen_history(r, version, opts=None):
                                     follow.append(["set_tag", ib[0], "zz", "Z", "hello"])
             ops.append(["add", line, how])
             ops.extend(follow)
+            if isinstance(how, list) and not how[1] and not follow and gen.chance(r, 0.5):
+                # identical twins (same content, no identifier): one of the two objects leaves again right away -
+                # the one that arrived second as often as the first
+                idx = [i_ for i_, x_ in enumerate(st.model.recs) if x_ is rec1 or x_ is rec2]
+                if len(idx) == 2 and not st.model.dependants(rec1):
+                    i_ = gen.choice(r, idx)
+                    ops.append([gen.choice(r, ["rm_i", "disc"]), i_])
+                    st.model.remove(st.model.recs[i_])
     if o["close"]:
         close_history(st, r, ops)
     return {"version": version, "ops": ops}
